@@ -5,12 +5,15 @@ package main
 // replay files, prints KNOWN-FINDING / VIOLATION lines.
 
 import (
+	"context"
 	"encoding/json"
 	"fmt"
 	"os"
+	"os/exec"
 	"path/filepath"
 	"sort"
 	"strings"
+	"sync"
 	"time"
 )
 
@@ -145,6 +148,9 @@ func (r *Run) solveAll() {
 		sem <- struct{}{}
 		go func() {
 			dischargeBatch(p.vc, r.SmtDir, p.tag, 4, quick, slow)
+			if r.Tier == "thorough" {
+				crossCheck(p.vc, r.SmtDir, p.tag, 20, 4)
+			}
 			<-sem
 			done <- struct{}{}
 		}()
@@ -273,6 +279,47 @@ func checkMain(args []string) int {
 		rp := writeReplay(replayDir, prop, o, "function could not be brought under the verifier: "+e)
 		fmt.Printf("VIOLATION property=%s replay=%s no-failing-input-found\n", prop, rp)
 	}
+	// thorough tier: second-solver confirmation, bounded conformance tests of the assumed library
+	// contracts, and the must-fail corpus (stored mutants and seeded changes of this property)
+	var cross, conformance, mutants map[string]any
+	if tier == "thorough" {
+		by := map[string]int{}
+		unconf := 0
+		var disagree []string
+		for _, o := range run.Obls {
+			if o.Cover || o.Status != "discharged" {
+				continue
+			}
+			switch {
+			case o.Confirm != "":
+				by[o.Confirm]++
+			case o.Disagree != "":
+				disagree = append(disagree, o.Name+" ("+o.Disagree+" answered sat)")
+			default:
+				unconf++
+			}
+		}
+		for _, d := range disagree {
+			fmt.Fprintln(os.Stderr, "NOTE: solvers disagree on", d)
+		}
+		cross = map[string]any{"confirmed_by": by, "unconfirmed_within_20s": unconf, "disagreements": disagree}
+		var bad []string
+		conformance, bad = runConformance(prop, repo, in)
+		for _, tname := range bad {
+			violations++
+			o := &Obligation{Name: "assumed-contract:" + tname, Kind: "assumption", Output: fmt.Sprint(conformance["output"])}
+			rp := writeReplay(replayDir, prop, o, "a library contract the proof assumes is refuted by the real library: go test -overlay (conformance/assumed_contracts_test.go) -run "+tname)
+			fmt.Printf("VIOLATION property=%s replay=%s\n", prop, rp)
+		}
+		if os.Getenv("VERIF_REPO") == "" {
+			mutants = runCorpus(prop, in)
+		}
+		if conformance != nil {
+			for _, tname := range conformance["tests"].([]string) {
+				run.Bounded = append(run.Bounded, "bounded conformance test of an assumed library contract: "+tname+" (bounds stated in conformance/assumed_contracts_test.go)")
+			}
+		}
+	}
 	// evidence
 	var assumptions []string
 	for a := range run.Assume {
@@ -305,6 +352,9 @@ func checkMain(args []string) int {
 			"not_analysed":             run.Errors,
 			"decided_clauses":          plan.Decided,
 			"undecided_clauses":        plan.Undecided,
+			"cross_check":              cross,
+			"conformance":              conformance,
+			"must_fail_corpus":         mutants,
 		},
 		"assumptions": assumptions,
 		"wall_s":      round3(time.Since(t0).Seconds()),
@@ -382,4 +432,117 @@ var baseAssumptions = []string{
 	"append is modelled as always reallocating (no observable sharing of spare capacity)",
 	"floating point is not modelled (opaque)",
 	"package-level protocol constants (Field*, Tran* byte arrays) are not mutated after initialisation",
+}
+
+// conformanceFor: which assumed library contracts a property's proof uses
+var conformanceFor = map[string][]string{
+	"C01": {"BigEndian", "ConcatEqual", "DrainLemma", "BinaryFixed"},
+	"C02": {"BinaryFixed", "StreamOps", "DrainLemma"},
+	"C04": {"BinaryFixed"},
+	"C07": {"PathAxioms", "ErrPredicates"},
+	"C08": {"StreamOps", "DrainLemma", "BinaryFixed", "BigEndian"},
+	"C09": {"StreamOps"},
+	"C10": {"StreamOps", "DrainLemma", "ErrPredicates", "BigEndian"},
+	"C11": {"NameLengths", "PathAxioms", "ErrPredicates", "DrainLemma"},
+	"C14": {"DrainLemma", "BigEndian"},
+	"C15": {"PathAxioms"},
+	"C18": {"BigEndian", "DrainLemma"},
+	"C19": {"ConcatEqual", "DrainLemma"},
+	"C20": {"ErrPredicates"},
+}
+
+// runConformance runs the bounded conformance tests for the property on the real libraries,
+// injected into package hotline of the tree under check (go test -overlay, nothing is written there).
+func runConformance(prop, repo, in string) (map[string]any, []string) {
+	topics := conformanceFor[prop]
+	if len(topics) == 0 {
+		return nil, nil
+	}
+	dir, err := os.MkdirTemp("", "govc_conf")
+	if err != nil {
+		return map[string]any{"error": err.Error()}, nil
+	}
+	defer os.RemoveAll(dir)
+	ov := filepath.Join(dir, "ov.json")
+	os.WriteFile(ov, []byte(fmt.Sprintf(`{"Replace": {%q: %q}}`, filepath.Join(repo, "hotline", "zz_verif_conformance_test.go"), filepath.Join(in, "conformance", "assumed_contracts_test.go"))), 0o644)
+	var names []string
+	for _, t := range topics {
+		names = append(names, "TestAssumed_"+t)
+	}
+	ctx, cancel := context.WithTimeout(context.Background(), 5*time.Minute)
+	defer cancel()
+	cmd := exec.CommandContext(ctx, "go", "test", "-overlay", ov, "-vet=off", "-count=1", "-timeout", "240s", "-run", "^("+strings.Join(names, "|")+")$", "-v", "./hotline/")
+	cmd.Dir = repo
+	cmd.Env = append(os.Environ(), "GOFLAGS=-mod=mod", "GOPROXY=off", "GOSUMDB=off", "GOTOOLCHAIN=local")
+	out, _ := cmd.CombinedOutput()
+	var passed, failed []string
+	for _, ln := range strings.Split(string(out), "\n") {
+		ln = strings.TrimSpace(ln)
+		if strings.HasPrefix(ln, "--- PASS: ") {
+			passed = append(passed, strings.Fields(ln)[2])
+		}
+		if strings.HasPrefix(ln, "--- FAIL: ") {
+			failed = append(failed, strings.Fields(ln)[2])
+		}
+	}
+	res := map[string]any{"tests": names, "passed": passed, "failed": failed}
+	if len(passed)+len(failed) != len(names) {
+		res["error"] = "conformance tests did not all run"
+		res["output"] = tailStr(string(out), 2000)
+	}
+	if len(failed) > 0 {
+		res["output"] = tailStr(string(out), 4000)
+	}
+	return res, failed
+}
+
+func tailStr(s string, n int) string {
+	if len(s) > n {
+		return s[len(s)-n:]
+	}
+	return s
+}
+
+// runCorpus runs the property's must-fail corpus: every stored mutant and seeded change must make
+// the quick check report a violation.  A miss is reported in the evidence (it says the check is
+// weaker than hoped, not that the code is wrong).
+func runCorpus(prop, in string) map[string]any {
+	var patches []string
+	m1, _ := filepath.Glob(filepath.Join(in, "selftest", "mutants", prop, "*.diff"))
+	m2, _ := filepath.Glob(filepath.Join(in, "seeded", prop+"_v*", "patch.diff"))
+	patches = append(append(patches, m1...), m2...)
+	sort.Strings(patches)
+	var detected, missed, broken []string
+	var mu sync.Mutex
+	var wg sync.WaitGroup
+	sem := make(chan struct{}, 2)
+	for _, p := range patches {
+		p := p
+		wg.Add(1)
+		sem <- struct{}{}
+		go func() {
+			defer wg.Done()
+			defer func() { <-sem }()
+			ctx, cancel := context.WithTimeout(context.Background(), 15*time.Minute)
+			defer cancel()
+			cmd := exec.CommandContext(ctx, filepath.Join(in, "selftest", "mutant.sh"), prop, p)
+			out, _ := cmd.CombinedOutput()
+			rel, _ := filepath.Rel(in, p)
+			mu.Lock()
+			defer mu.Unlock()
+			switch {
+			case strings.Contains(string(out), "DETECTED "):
+				detected = append(detected, rel)
+			case strings.Contains(string(out), "MISSED "):
+				missed = append(missed, rel)
+			default:
+				broken = append(broken, rel)
+			}
+		}()
+	}
+	wg.Wait()
+	sort.Strings(detected)
+	sort.Strings(missed)
+	fmt.Fprintf(os.Stderr, "must-fail corpus: %d of %d detected, %d missed, %d not applicable\n", len(detected), len(patches), len(missed), len(broken))
+	return map[string]any{"total": len(patches), "detected": detected, "missed": missed, "patch_does_not_apply_or_build": broken}
 }
